@@ -303,7 +303,7 @@ def run_sequence_real(steps):
         Mode.real = False
 
 
-def ref_eval_real(prog):
+def ref_eval_real(prog, value_semantics=False):
     """direct evaluation of the abstract syntax: the builtin bodies (the undecorated functions of
     aw_query.functions) applied to the values of the arguments, datastore / namespace passed to
     the ones that declare them"""
@@ -326,15 +326,50 @@ def ref_eval_real(prog):
             return {kk: ev(x) for kk, x in e[1]}
         ent = reg[e[1]]
         args = [ev(x) for x in e[2]]
+        d = direct_transforms().get(e[1])
+        if d is not None:
+            # the transform the builtin stands for, applied to the argument values in written order
+            # (independent of the body registered in aw_query.functions)
+            return d(*args)
         full = ([ds] if ent["takes_ds"] else []) + ([ns] if ent["takes_ns"] else []) + args
         return _raw[e[1]](*full)
 
     def go():
+        import copy
+
         for name, e in prog:
-            ns[name] = ev(e)
+            v = ev(e)
+            ns[name] = copy.deepcopy(v) if value_semantics else v
         return canon_real(ns["RETURN"])
 
     return guarded(go)
+
+
+def direct_transforms():
+    import aw_transform as T
+    from aw_transform import Rule
+
+    return {
+        "filter_keyvals": lambda ev, k, v: T.filter_keyvals(ev, k, v, False),
+        "exclude_keyvals": lambda ev, k, v: T.filter_keyvals(ev, k, v, True),
+        "filter_keyvals_regex": lambda ev, k, r: T.filter_keyvals_regex(ev, k, r),
+        "filter_period_intersect": lambda a, b: T.filter_period_intersect(a, b),
+        "period_union": lambda a, b: T.period_union(a, b),
+        "limit_events": lambda ev, n: T.limit_events(ev, n),
+        "merge_events_by_keys": lambda ev, ks: T.merge_events_by_keys(ev, ks),
+        "chunk_events_by_key": lambda ev, k: T.chunk_events_by_key(ev, k),
+        "sort_by_timestamp": lambda ev: T.sort_by_timestamp(ev),
+        "sort_by_duration": lambda ev: T.sort_by_duration(ev),
+        "sum_durations": lambda ev: T.sum_durations(ev),
+        "concat": lambda a, b: T.concat(a, b),
+        "union_no_overlap": lambda a, b: T.union_no_overlap(a, b),
+        "flood": lambda ev: T.flood(ev),
+        "split_url_events": lambda ev: T.split_url_events(ev),
+        "simplify_window_titles": lambda ev, key: T.simplify_string(ev, key=key),
+        "categorize": lambda ev, cl: T.categorize(ev, [(c, Rule(r)) for c, r in cl]),
+        "tag": lambda ev, cl: T.tag(ev, [(c, Rule(r)) for c, r in cl]),
+        "nop": lambda: 1,
+    }
 
 
 # ---- protocol ------------------------------------------------------------------------------------
